@@ -220,6 +220,7 @@ def run(ctx, rep):
                 phases = sorted(set(mon.bad))
                 key = "C05:F5-mucommalambda-diagnostics" if (kind == "MuCommaLambda" and phases == ["diagnostics"]) else "C05:unevaluated-read"
                 rep.violate(f"{kind}: fitness of an individual that is not marked evaluated was read during {phases}", key, case)
+    special_islands(ctx, rep)
     rep.extra["observed_phase_lists"] = {k: [list(s) for s in v] for k, v in observed.items()}
     if ctx.driver_ok:
         out = run_driver(["phases"])[0]
@@ -240,6 +241,90 @@ def run(ctx, rep):
             for s in seqs:
                 if list(s) != gen_seq:
                     rep.disagree(f"{kind}: observed phase sequence {list(s)} differs from the regenerated phase list {gen_seq}", {"algorithm": kind})
+
+
+def special_islands(ctx, rep):
+    """(a) FitnessPredictorIsland: a stored fitness must be the value of the island's CURRENT fitness function (current predictor
+    subset) at every generation boundary, hall-of-fame entries the full-data value; (b) AGraph island with local optimization and
+    multi-process evaluation: a stored fitness must be the plain regression fitness of the individual's CURRENT constants."""
+    from bingo.evolutionary_optimizers.fitness_predictor_island import FitnessPredictorIsland
+    from bingo.local_optimizers.local_opt_fitness import LocalOptFitnessFunction
+    from bingo.local_optimizers.scipy_optimizer import ScipyOptimizer
+    from bingo.symbolic_regression.agraph.component_generator import ComponentGenerator
+    from bingo.symbolic_regression.agraph.crossover import AGraphCrossover
+    from bingo.symbolic_regression.agraph.generator import AGraphGenerator
+    from bingo.symbolic_regression.agraph.mutation import AGraphMutation
+    from bingo.symbolic_regression.explicit_regression import ExplicitRegression, ExplicitTrainingData
+    rng = ctx.rng
+
+    def close(a, b):
+        return a == b or (math.isnan(a) and math.isnan(b)) or (math.isfinite(a) and math.isfinite(b) and abs(a - b) <= 1e-9 * max(1.0, abs(b)))
+
+    def parts(seed, n_points):
+        np.random.seed(seed)
+        x = np.linspace(-2, 2, n_points).reshape(-1, 1)
+        y = x ** 2 + 0.5 * x
+        cg = ComponentGenerator(1)
+        for op in ("+", "-", "*"):
+            cg.add_operator(op)
+        return x, y, cg, AGraphGenerator(8, cg)
+
+    for t in range(ctx.n(8, 40)):
+        seed = rng.randrange(2 ** 31)
+        x, y, cg, gen = parts(seed, rng.choice([30, 60]))
+        fit = ExplicitRegression(training_data=ExplicitTrainingData(x.copy(), y.copy()))
+        ea = AgeFitnessEA(Evaluation(fit), gen, AGraphCrossover(), AGraphMutation(cg), 0.4, 0.4, 10)
+        case = {"kind": "fitness-predictor island", "seed": seed}
+        rep.case(("fpi", seed), True)
+        rep.count("special", "fitness-predictor island")
+        try:
+            with warnings.catch_warnings():
+                warnings.simplefilter("ignore")
+                isl = FitnessPredictorIsland(ea, gen, 10, predictor_population_size=4, predictor_update_frequency=rng.choice([2, 3]),
+                                             predictor_size_ratio=rng.choice([0.1, 0.3]), predictor_computation_ratio=rng.choice([0.5, 0.9]),
+                                             trainer_population_size=3, trainer_update_frequency=rng.choice([2, 4]), hall_of_fame=HallOfFame(3))
+                for g in range(ctx.n(9, 16)):
+                    isl.evolve(1)
+                    cur = ExplicitRegression(training_data=isl._fitness_function.training_data)
+                    bad = 0
+                    for ind in isl.population:
+                        if ind.fit_set and not close(float(ind._fitness), float(cur(ind.copy()))):
+                            bad += 1
+                    if bad:
+                        rep.violate(f"fitness-predictor island, generation {g + 1}: {bad} individuals are marked evaluated but their stored fitness is "
+                                    "not the value of the island's current fitness function", "C05:stale-fitness", {**case, "generation": g + 1})
+                        break
+        except Exception as exc:
+            rep.violate(f"fitness-predictor island raised {type(exc).__name__}: {exc}", "C05:raised", case)
+    for t in range(ctx.n(3, 20)):
+        seed = rng.randrange(2 ** 31)
+        x, y, cg, gen = parts(seed, 12)
+        cgc = ComponentGenerator(1, constant_probability=0.6)
+        for op in ("+", "*"):
+            cgc.add_operator(op)
+        gen = AGraphGenerator(6, cgc)
+        base = ExplicitRegression(training_data=ExplicitTrainingData(x, y))
+        lo = LocalOptFitnessFunction(base, ScipyOptimizer(base, method="lm"))
+        nproc = rng.choice([False, 2, 2])
+        ea = AgeFitnessEA(Evaluation(lo, multiprocess=nproc), gen, AGraphCrossover(), AGraphMutation(cgc), 0.4, 0.4, 8)
+        case = {"kind": "local optimization", "multiprocess": nproc, "seed": seed}
+        rep.case(("lo", seed, nproc), True)
+        rep.count("special", f"local-opt island multiprocess={nproc}")
+        try:
+            with warnings.catch_warnings():
+                warnings.simplefilter("ignore")
+                isl = Island(ea, gen, 8, hall_of_fame=HallOfFame(3))
+                ref = ExplicitRegression(training_data=ExplicitTrainingData(x, y))
+                for g in range(3):
+                    isl.evolve(1)
+                    bad = sum(1 for ind in list(isl.population) + list(isl.hall_of_fame)
+                              if ind.fit_set and not close(float(ind._fitness), float(ref(ind.copy()))))
+                    if bad:
+                        rep.violate(f"island with local optimization (multiprocess={nproc}), generation {g + 1}: {bad} individuals are marked evaluated but "
+                                    "their stored fitness is not the fitness of the constants they hold", "C05:stale-fitness", {**case, "generation": g + 1})
+                        break
+        except Exception as exc:
+            rep.violate(f"local-optimization island raised {type(exc).__name__}: {exc}", "C05:raised", case)
 
 
 def replay(ctx, rep, rp):
